@@ -447,9 +447,9 @@ func init() {
 		{"SerializeSCTSignatureInput.precert", semLitFields(ser, "SerializeSCTSignatureInput", "PreCert", "sctInputPreFields")},
 		{"SerializeSCTSignatureInput.x509", semFacts(ser, "SerializeSCTSignatureInput", `^\w+\.X509Entry=(.*)$`, "sctInputX509")},
 		{"SerializeSCTSignatureInput.pre", semFacts(ser, "SerializeSCTSignatureInput", `^\w+\.PrecertEntry=&(\w+)\{`, "sctInputPreTarget")},
-		{"SerializeSCTSignatureInput.marshal", semFacts(ser, "SerializeSCTSignatureInput", `tls\.Marshal\(\$var\((\w+)\{`, "sctInputMarshalled")},
+		{"SerializeSCTSignatureInput.marshal", semFacts(ser, "SerializeSCTSignatureInput", `tls\.Marshal\(\$(?:var|lit)\((\w+)[\{\)]`, "sctInputMarshalled")},
 		{"SerializeSTHSignatureInput.fields", semLitFields(ser, "SerializeSTHSignatureInput", "TreeHeadSignature", "sthInputFields")},
-		{"SerializeSTHSignatureInput.marshal", semFacts(ser, "SerializeSTHSignatureInput", `tls\.Marshal\(\$var\((\w+)\{`, "sthInputMarshalled")},
+		{"SerializeSTHSignatureInput.marshal", semFacts(ser, "SerializeSTHSignatureInput", `tls\.Marshal\(\$(?:var|lit)\((\w+)[\{\)]`, "sthInputMarshalled")},
 		{"LeafHashForLeaf.marshal", semFacts(ser, "LeafHashForLeaf", `:=tls\.Marshal\((.*)\)$`, "leafHashMarshal")},
 		{"LeafHashForLeaf.data", semFacts(ser, "LeafHashForLeaf", `append\(\[\]byte\{(\w+)\},\$Marshal\.\.\.\)`, "leafHashPrefix")},
 		{"LeafHashForLeaf.hash", semFacts(ser, "LeafHashForLeaf", `sha256\.Sum256\((.*)\)$`, "leafHashSum")},
